@@ -38,11 +38,14 @@ VUnset == [t |-> "unset"]
 Ok(v, s) == [k |-> "ok", v |-> v, s |-> s]
 \* kind: "type error", "index error", "key error", "slice error", "args error", "value error",
 \*       "eval error", "panic" (recovered Go panic: kind not compared), "user" (error(msg): v = msg cps)
-Raise(kind, s) == [k |-> "raise", v |-> [kind |-> kind, msg |-> <<>>], s |-> s]
-RaiseMsg(kind, msg, s) == [k |-> "raise", v |-> [kind |-> kind, msg |-> msg], s |-> s]
+Fatal(kind) == kind \in {"eval error", "args error", "panic"}
+Raise(kind, s) == [k |-> "raise", v |-> [kind |-> kind, msg |-> <<>>, fatal |-> Fatal(kind)], s |-> s]
+RaiseMsg(kind, msg, s) == [k |-> "raise", v |-> [kind |-> kind, msg |-> msg, fatal |-> Fatal(kind)], s |-> s]
+\* an error that crossed a builtin callback boundary (list.map/filter/each) is re-raised as a plain error:
+\* same text (hence kind), but no longer fatal for try(); a recovered Go panic stays a panic
+Demote(r) == IF r.v.kind = "panic" THEN r ELSE [r EXCEPT !.v.fatal = FALSE]
 Sig(k, v, s) == [k |-> k, v |-> v, s |-> s]
 Unknown(s) == [k |-> "unknown", v |-> VNil, s |-> s]
-Fatal(kind) == kind \in {"eval error", "args error", "panic"}
 
 \* ---------- code point helpers ----------
 Cp(str) == CASE str = "true" -> <<116,114,117,101>> [] str = "false" -> <<102,97,108,115,101>>
@@ -120,7 +123,8 @@ VEq(a, b, s) ==
          [] a.t = "error" -> a.v = b.v /\ a.raised = b.raised
          [] OTHER -> FALSE
 \* equality on values whose identity the model does not track is outside the domain
-EqKnown(a, b) == ~(a.t = b.t /\ a.t \in {"method"})
+Opaque(v) == v.t = "error" /\ "opaque" \in DOMAIN v
+EqKnown(a, b) == ~(a.t = b.t /\ a.t \in {"method"}) /\ ~Opaque(a) /\ ~Opaque(b)
 
 \* compare: [ok, c]; ok = FALSE means "type error"
 RECURSIVE VCmp(_,_,_)
@@ -261,7 +265,7 @@ Show(v, s, top, d) ==
     [] v.t = "set" -> LET r == ShowSeq(SetItems(v, s), s, d - 1) IN [ok |-> r.ok, t |-> <<123>> \o r.t \o <<125>>]
     [] v.t = "map" -> LET r == ShowPairs(SortKeys(DOMAIN MapOf(v, s)), MapOf(v, s), s, d - 1) IN
                        [ok |-> r.ok, t |-> <<123>> \o r.t \o <<125>>]
-    [] v.t = "error" -> IF top THEN [ok |-> TRUE, t |-> v.v]
+    [] v.t = "error" -> IF Opaque(v) THEN [ok |-> FALSE, t |-> <<>>] ELSE IF top THEN [ok |-> TRUE, t |-> v.v]
                         ELSE [ok |-> Plain(v.v), t |-> Cp("error(") \o Quote(v.v) \o <<41>>]
     [] OTHER -> [ok |-> FALSE, t |-> <<>>]
 
@@ -428,10 +432,11 @@ MapCB(kind, f, items, i, s, acc) ==
   IF i > Len(items) THEN
      (IF kind = "each" THEN Ok(VNil, s) ELSE NewList(acc, s))
   ELSE LET np == Len(f.params)
-           cargs == IF np = 1 THEN <<items[i]>> ELSE <<VInt(i - 1), items[i]>>
+           \* only map passes (index, value) to a two-parameter callback
+           cargs == IF kind = "map" /\ np = 2 THEN <<VInt(i - 1), items[i]>> ELSE <<items[i]>>
            r == CallFn(f, cargs, s) IN
        IF r.k = "unknown" THEN r
-       ELSE IF r.k # "ok" THEN (IF r.k = "raise" THEN r ELSE Unknown(r.s))
+       ELSE IF r.k # "ok" THEN (IF r.k = "raise" THEN Demote(r) ELSE Unknown(r.s))
        ELSE IF r.v.t = "error" THEN Unknown(r.s)
        ELSE MapCB(kind, f, items, i + 1, r.s,
                   IF kind = "map" THEN Append(acc, r.v)
@@ -459,7 +464,7 @@ CallMethod(m, args, s) ==
       [] m.n \in {"map", "filter", "each"} ->
             IF Len(args) # 1 THEN Raise("args error", s)
             ELSE IF args[1].t # "fn" THEN (IF args[1].t \in {"builtin", "method"} THEN Unknown(s) ELSE Raise("type error", s))
-            ELSE IF Len(args[1].params) < 1 \/ Len(args[1].params) > 2 THEN Raise("type error", s)
+            ELSE IF m.n = "map" /\ (Len(args[1].params) < 1 \/ Len(args[1].params) > 2) THEN Raise("type error", s)
             ELSE MapCB(m.n, args[1], items, 1, s, <<>>)
       [] OTHER -> Unknown(s)
   ELSE IF self.t = "map" THEN
@@ -480,7 +485,7 @@ CallMethod(m, args, s) ==
       [] m.n = "to_lower" -> IF Len(args) # 0 THEN Raise("args error", s)
                              ELSE IF ~Ascii(self.v) THEN Unknown(s) ELSE Ok(VStr([i \in 1..Len(self.v) |-> Lower(self.v[i])]), s)
       [] m.n = "contains" -> IF Len(args) # 1 THEN Raise("args error", s)
-                             ELSE IF args[1].t # "str" THEN Raise("type error", s)
+                             ELSE IF args[1].t # "str" THEN Ok(VBool(FALSE), s)
                              ELSE Ok(VBool(IsSub(args[1].v, self.v)), s)
       [] OTHER -> Unknown(s)
   ELSE Unknown(s)
@@ -506,7 +511,7 @@ TryArgs(args, i, last, s) ==
               r == CallFn(a, cargs, s) IN
           IF r.k = "ok" THEN r
           ELSE IF r.k = "raise" THEN
-               (IF Fatal(r.v.kind) THEN r
+               (IF r.v.fatal THEN r
                 ELSE IF r.v.kind # "user" THEN
                      \* the error message text of built-in errors is not modelled
                      TryArgs(args, i + 1, [t |-> "error", v |-> <<63>>, raised |-> FALSE, opaque |-> TRUE], r.s)
